@@ -180,6 +180,16 @@ CACHE_RES = dict(
                           params=["task_dict", "resource_dict"], returns=["task_resource_dict", "task_dict", "resource_dict"])),
     ])
 
+CACHE_KEY = dict(
+    out="CacheKey", file="executorlib/cache/shared.py", requires=["Serialize"],
+    funcs=[
+        dict(py="execute_tasks_h5", name="file_mode_key",
+             snippet=dict(first="task_resource_dict = task_dict['resource_dict'].copy()",
+                          last="task_key, data_dict = serialize_funct_h5(fn=task_dict['fn'], fn_args=task_args, fn_kwargs=task_kwargs, resource_dict=task_resource_dict)",
+                          params=["task_dict", "resource_dict", "task_args", "task_kwargs"],
+                          returns=["task_key", "data_dict", "task_resource_dict"])),
+    ])
+
 CONFIG_INTER = dict(
     out="ConfigInter", file="executorlib/interactive/executor.py", requires=["InputCheck"],
     funcs=[
@@ -215,4 +225,4 @@ BASE_EXEC = dict(
                           params=["self", "resource_dict"], returns=["resource_dict"])),
     ])
 
-TARGETS = [INPUTCHECK, SPAWNER, COMMUNICATION, BACKEND, SHARED_PATH, CACHE_CMD, WORKER_SERIAL, WORKER_PARALLEL, CACHE_PARALLEL, CACHE_BACKEND, SERIALIZE, SHARED_RES, CACHE_RES, CONFIG_INTER, CONFIG_FILE, CONFIG_TOP, BASE_EXEC]
+TARGETS = [INPUTCHECK, SPAWNER, COMMUNICATION, BACKEND, SHARED_PATH, CACHE_CMD, WORKER_SERIAL, WORKER_PARALLEL, CACHE_PARALLEL, CACHE_BACKEND, SERIALIZE, SHARED_RES, CACHE_RES, CACHE_KEY, CONFIG_INTER, CONFIG_FILE, CONFIG_TOP, BASE_EXEC]
